@@ -47,6 +47,78 @@ def lock_state(f, mtext, init):
     return q.forward(f, init, tr, None, join)
 
 
+def wait_outcomes(f, prims, fail_v, flag="this->signaled"):
+    """typestate dataflow over a wait member: for every return statement the set of abstract situations in which it can return
+    each value.  state components: T = the flag was seen set and no wait primitive ran since; P = the last wait primitive reported
+    failure (timeout); K = the flag was cleared since T became true; plus the constant values of bool locals (so `return result;`
+    is resolved per path).  returns [(return node, value True/False/None, T, P, K)]"""
+    flags = sorted(d["n"] for n in f.nodes if n["k"] == "DeclStmt" for d in n["decls"] if d.get("t") == "bool")
+    primset = set(prims)
+    pk = {x: fin.key(f, x) for x in prims}
+
+    def setflag(fl, name, v):
+        return tuple((v if nm == name else x) for nm, x in zip(flags, fl))
+
+    def transfer(st, e):
+        if not isinstance(e, int):
+            return st
+        n = f.nodes[e]
+        out = set()
+        for (T, P, K, fl) in st:
+            if e in primset:
+                T, P, K = False, None, False      # outcome decided by the branch that tests it
+            elif n["k"] == "BinaryOperator" and n["op"] == "=":
+                lt = q.no_casts(f.r(n["c"][0]))
+                if lt == flag and q.is_zero(f, n["c"][1]):
+                    K = True
+                elif lt in flags:
+                    v = fin.eval_expr(f, n["c"][1], {})
+                    fl = setflag(fl, lt, None if v is None else bool(v))
+            elif n["k"] == "DeclStmt":
+                for d in n["decls"]:
+                    if d["n"] in flags and d.get("init") is not None:
+                        v = fin.eval_expr(f, d["init"], {})
+                        fl = setflag(fl, d["n"], None if v is None else bool(v))
+            out.add((T, P, K, fl))
+        return frozenset(out)
+
+    def refine(st, blk, k):
+        c = blk.get("cond")
+        if c is None or len(blk["succ"]) != 2 or blk.get("tk") == "SwitchStmt":
+            return st
+        res = set(st)
+        for a, truth in q.cond_atoms(f, c, k == 0):
+            t = q.no_casts(f.r(a))
+            if t == flag:
+                res = set((True, P, False, fl) if truth else (T, P, K, fl) for (T, P, K, fl) in res)
+            elif t in flags:
+                i = flags.index(t)
+                res = set(x for x in res if x[3][i] is None or x[3][i] == truth)
+            else:
+                inside = [x for x in prims if x in f.desc(a)]
+                if inside:
+                    vf = fin.eval_expr(f, a, {pk[x]: fail_v for x in inside})
+                    vs = fin.eval_expr(f, a, {pk[x]: 0 for x in inside})
+                    if vf is not None and vs is not None and bool(vf) != bool(vs):
+                        failed = bool(vf) == truth
+                        res = set((T, failed, K, fl) for (T, P, K, fl) in res)
+        return frozenset(res) if res else None
+
+    init = frozenset({(False, False, False, tuple(None for _ in flags))})
+    sin, sat = q.forward(f, init, transfer, refine, lambda a, b: a | b)
+    out = []
+    for i, n in enumerate(f.nodes):
+        if n["k"] != "ReturnStmt" or not n["c"]:
+            continue
+        st = sat.get(f.node_pos(i))
+        if st is None:
+            continue
+        for (T, P, K, fl) in st:
+            v = fin.eval_expr(f, n["c"][0], {nm: int(x) for nm, x in zip(flags, fl) if x is not None})
+            out.append((i, None if v is None else bool(v), T, P, K))
+    return out
+
+
 def run(prog, chk):
     chk.extra["explanation"] = EXPLANATION
     chk.extra["not_analysed"] = "_WIN32 branches (not part of the parsed program on this target)"
@@ -102,26 +174,18 @@ def run(prog, chk):
             chk.bad("C11.c", f, "no-wait-primitive", where, "%s does not call %s" % (name, prim))
             continue
         in_loop = all(C.loop_blocks(f, w) for w in waits)
-        rets_true = [i for i, n in enumerate(f.nodes) if n["k"] == "ReturnStmt" and n["c"] and fin.eval_expr(f, n["c"][0], {}) == 1]
-        ok = in_loop and bool(rets_true)
+        outs = wait_outcomes(f, waits, 110)
+        can_true = [o for o in outs if o[1] is not False]
+        ok = in_loop and bool(can_true)
         msg = ""
         if not in_loop:
             msg = "the condition wait is not inside a loop: a spurious wake-up returns without the flag being set"
-        for r in rets_true:
-            atoms = fin.dominating_atoms(f, f.node_pos(r))
-            tests = [a for a in atoms if a[0] != "case" and a[1] and fin.key(f, a[0]) == "this->signaled"]
-            if not tests:
-                ok, msg = False, "`return true` is reachable without a successful test of the flag"
-                continue
-            # no wait between the test and the return
-            tpos = f.node_pos(tests[0][0])
-            for w in waits:
-                if f.find_path(tpos, {f.node_pos(w)}, avoid={f.node_pos(r)}) is not None and f.find_path(f.node_pos(w), {f.node_pos(r)}, avoid={tpos}) is not None:
-                    ok, msg = False, "a wait lies between the flag test and `return true` (the flag may have been reset meanwhile)"
-            if name.startswith("Monitor"):
-                cons = [s.node for s in q.stores(f) if f.r(s.lhs) == "this->signaled" and s.rhs is not None and q.is_zero(f, s.rhs)]
-                if not cons or f.find_path(tpos, {f.node_pos(r)}, avoid=q.pos_of(f, cons)) is not None:
-                    ok, msg = False, "Monitor::wait returns true without consuming the flag (successful waits can outnumber set() calls)"
+        for (r, v, T, P, K) in can_true:
+            if not T:
+                ok, msg = False, ("a successful return is reachable without a successful test of the flag after the last wait "
+                                  "(spurious wake-up, or the flag may have been reset meanwhile)")
+            elif name.startswith("Monitor") and not K:
+                ok, msg = False, "Monitor::wait returns true without consuming the flag (successful waits can outnumber set() calls)"
         if ok:
             chk.ok("C11.c", f, "%s: wait in loop, success only after a flag test%s" % (name, ", flag consumed" if name.startswith("Monitor") else ""), where, "dominating atoms + path search", evals=3)
         else:
@@ -145,23 +209,17 @@ def run(prog, chk):
                                  ("Semaphore::wait", "sem_timedwait", "== -1")):
         f = fn(prog, name, 1)
         where = "%s:%s" % (f.file, f.line)
-        rets_false = [i for i, n in enumerate(f.nodes) if n["k"] == "ReturnStmt" and n["c"] and fin.eval_expr(f, n["c"][0], {}) == 0]
         prims = callsn(f, prim)
-        okf = bool(prims) and bool(rets_false)
-        for r in rets_false:
-            atoms = fin.dominating_atoms(f, f.node_pos(r))
-            hit = [a for a in atoms if a[0] != "case" and any(x in f.desc(a[0]) for x in prims)]
-            good = False
-            fail_v = -1 if prim == "sem_timedwait" else 110          # what the primitive returns on a timeout
-            for a in hit:
-                # the edge is taken when the primitive failed and not when it succeeded (whatever the comparison is spelled like)
-                pk = [fin.key(f, x) for x in prims if x in f.desc(a[0])]
-                vf = fin.eval_expr(f, a[0], {k: fail_v for k in pk})
-                vs = fin.eval_expr(f, a[0], {k: 0 for k in pk})
-                if vf is not None and vs is not None and bool(vf) == a[1] and bool(vs) != a[1]:
-                    good = True
+        fail_v = -1 if prim == "sem_timedwait" else 110          # what the primitive returns on a timeout
+        outs = wait_outcomes(f, prims, fail_v)
+        can_false = [o for o in outs if o[1] is not True]
+        rets_false = sorted(set(o[0] for o in can_false))
+        okf = bool(prims) and bool(can_false)
+        for (r, v, T, P, K) in can_false:
+            good = P is True
             if not good and name == "Semaphore::wait":
                 # fallback loop for ENOSYS: `return false` after the polling loop ran out
+                atoms = fin.dominating_atoms(f, f.node_pos(r))
                 if any(fin.key(f, a[0]).startswith("(i < timeout)") and not a[1] for a in atoms if a[0] != "case"):
                     good = True
             okf = okf and good
@@ -235,7 +293,7 @@ def run(prog, chk):
     ok = bool(pj) and bool(clr) and bool(rets) and all(C.after_all_pass(f, f.node_pos(p), q.pos_of(f, clr))[0] for p in pj)
     if ok:
         out_arg = q.no_casts(f.r(q.call_args(f, pj[0])[1])).lstrip("&")
-        ok = all(re.search(r"\b%s\b" % re.escape(out_arg), f.r(f.nodes[r]["c"][0])) for r in rets)
+        ok = all(re.search(r"\b%s\b" % re.escape(out_arg), q.xr(f, f.nodes[r]["c"][0])) for r in rets)     # through a local copy as well
     if ok:
         chk.ok("C11.g", f, "join returns the value delivered by pthread_join and clears the handle", where, "MPT + data flow of the out-parameter", evals=3)
     else:
